@@ -12,6 +12,7 @@ def check(ctx):
         "span, start_span/add_event/Span::new stamp begin with Instant::now(); R4 Span::elapsed returns "
         "begin_instant.elapsed() under inner = Some and None otherwise; R5 open spans end at the collection time "
         "(C17-R3); R6 a cloned RawSpan keeps its ids and both time stamps (a copy of a finished span stays finished); R3 also: finish_span stamps on every returning path; R7 every guard (LocalSpan, LocalParentGuard, LocalCollector) finishes its span / closes its scope on every path of its Drop.")
+    ctx.explanation += (' Round 5: R8 the span bound to a future by in_span is finished at completion (taken on Poll::Ready), not when the finished adapter is dropped.')
     ctx.not_decided = ("nesting / non-overlap of intervals and window containment: consequences of the order in which "
                        "the Instant::now() calls execute (runtime).")
     facts = ctx.facts("E")
